@@ -356,24 +356,29 @@ class SATEncoder:
         # All different
         self._encode_all_different(variables)
 
-        # No self-loops: x[i] != i
+        # No self-loops: x[i] != i, and successors are node indices
         for i, var in enumerate(variables):
             if i in var.bool_vars:
                 self._clauses.append([-var.bool_vars[i]])
+            for val in var.bool_vars:
+                if val < 0 or val >= n:
+                    self._clauses.append([-var.bool_vars[val]])
 
         if n <= 1:
             return
 
         # Subtour elimination using MTZ formulation
         t = [self._create_int_var(0 if i == 0 else 1, n - 1) for i in range(n)]
-        # t[0] is fixed to 0
+        # t[0] is fixed to 0; every node has exactly one position
         self._clauses.append([t[0].bool_vars[0]])
+        for ti in t:
+            self._encode_exactly_one(list(ti.bool_vars.values()))
 
         # For each edge i -> j (j != 0): t[j] >= t[i] + 1
         for i, var in enumerate(variables):
             for j in range(1, n):
                 if j in var.bool_vars:
-                    for ti in range(var.lb, var.ub + 1):
+                    for ti in range(t[i].lb, t[i].ub + 1):
                         if ti not in t[i].bool_vars:
                             continue
                         for tj in range(t[j].lb, ti + 1):
